@@ -15,7 +15,9 @@ static const char* EXPRS[] = {
 static const int NEXPR = sizeof EXPRS / sizeof EXPRS[0];
 static const char* QUERIES[] = {
     "A[] i < 3 && !b", "E<> a[0] == j", "i < 1 --> j > 2", "simulate [<=10] {i, j, a[0] + 1}", "Pr[<=10] (<> b && i > 2)", "E[<=10; 100] (max: i + j)", "Pr[<=10](<> b) >= 0.5",
-    "sup: i, j", "inf{b}: x", "A[] forall (k : int[0,2]) a[k] < 5", "simulate [x<=10; 5] {i} : 2 : b", "Pr[#<=20]([] i < 3) >= Pr[<=5](<> b)", "E<> fn(i, 2) > j"};
+    "sup: i, j", "inf{b}: x", "A[] forall (k : int[0,2]) a[k] < 5", "simulate [x<=10; 5] {i} : 2 : b", "Pr[#<=20]([] i < 3) >= Pr[<=5](<> b)", "E<> fn(i, 2) > j",
+    "control: A<> b && i > 1", "control_t*(i + 2): A<> b", "control_t*(2, 1): A[] !b", "control_t*: A<> b", "E<> control: A<> b", "{i, j} control: A[ b U i > 2 ]", "control: A[ b W i > 2 ]",
+    "minE(i)[<=10] {i} -> {d} : <> b", "maxPr[#<=10] : <> b", "Pr[<=10] (b U i > 2)", "E[<=10; 50] (min: i * j)", "inf: i", "bounds{b}: i, j", "A<> b imply i > 0"};
 static const int NQUERY = sizeof QUERIES / sizeof QUERIES[0];
 
 struct QB : StatementBuilder {
@@ -55,7 +57,7 @@ static expression_t pick_expression(Ctx& cx, QB*& qb)
     return e;
 }
 
-extern "C" void harness_clone()  /* vf: bounds=24_expressions+13_queries(all_operator_families,n-ary_nodes);deep_clone_equal,node-disjoint,mutation_isolated;child_count_law */
+extern "C" void harness_clone()  /* vf: bounds=24_expressions+27_queries(all_operator_families,n-ary_nodes);deep_clone_equal,node-disjoint,mutation_isolated;child_count_law */
 {
     Ctx cx; QB* qb = nullptr;
     vf_assert(cx.declare(DECLS) == 0, "declarations-accepted");
@@ -167,7 +169,7 @@ extern "C" void harness_equal_pairs()  /* vf: bounds=all_ordered_pairs_of_the_po
 static int count_ident(const expression_t& e, symbol_t s) { std::vector<expression_t> n; walk(e, n); int c = 0; for (auto& x : n) if (x.get_kind() == IDENTIFIER && x.get_symbol() == s) c++; return c; }
 static int count_const(const expression_t& e, int v) { std::vector<expression_t> n; walk(e, n); int c = 0; for (auto& x : n) if (x.get_kind() == CONSTANT && x.get_type().is_integral() && x.get_value() == v) c++; return c; }
 
-extern "C" void harness_subst()  /* vf: bounds=24_expressions+13_queries_x_7_symbols;self-substitution_identity;exactly_the_identifier_occurrences_replaced;original_unchanged;replacement_value_symbolic */
+extern "C" void harness_subst()  /* vf: bounds=24_expressions+27_queries_x_7_symbols;self-substitution_identity;exactly_the_identifier_occurrences_replaced;original_unchanged;replacement_value_symbolic */
 {
     Ctx cx; QB* qb = nullptr;
     vf_assert(cx.declare(DECLS) == 0, "declarations-accepted");
